@@ -300,6 +300,7 @@ type c21cWorld struct {
 	stmts     int // statements Dump has started on its connection
 	// at which statement count each write was committed
 	commitAfterStmts []int
+	commitAtBoundary []int
 	// statement failure injection (VerifC21cStmt)
 	failAt       int  // index of the statement that fails, -1 = none
 	failStepping bool // it fails when the first row is fetched, not when it is started
@@ -396,6 +397,24 @@ func (w *c21cWorld) boundary(tag string) {
 	}
 	w.states = append(w.states, next)
 	w.commitAfterStmts = append(w.commitAfterStmts, w.stmts)
+	w.commitAtBoundary = append(w.commitAtBoundary, i)
+}
+
+// wroteInside: a write was committed where two statements of the dump can lie on either side of
+// it - at a Write call other than the first (the header, before the first statement) and the last
+// (the footer, after the last statement), or before a statement other than the first. Known in
+// both worlds.
+func (w *c21cWorld) wroteInside() bool {
+	hi := w.nb - 2
+	if w.stmtHook {
+		hi = w.nb - 1
+	}
+	for _, b := range w.commitAtBoundary {
+		if b >= 1 && b <= hi {
+			return true
+		}
+	}
+	return false
 }
 
 // beforeStatement is called when Dump starts a statement on its connection (symbolic: by the
@@ -569,7 +588,8 @@ func c21cIsMixture(c c21cState, states []c21cState, filter []string) bool {
 	for _, x := range c.indexes {
 		ok := false
 		for _, s := range states {
-			y := s.index(x.name)
+			r := c21cRestrict(s, filter)
+			y := r.index(x.name)
 			if y != nil && *y == x {
 				ok = true
 			}
@@ -861,7 +881,11 @@ func (w *c21cWorld) query(x *c21cConnM, q string, args []any) (*sql.Rows, error)
 				case "v":
 					vals = append(vals, "'"+r.v+"'")
 				default:
-					panic("verif C21c: column outside the model: " + c)
+					// SQLite: a double-quoted name that is no column of the table is a string literal
+					if strings.ContainsAny(c, `"'`) {
+						panic("verif C21c: column outside the model: " + c)
+					}
+					vals = append(vals, "'"+c+"'")
 				}
 			}
 			m.data = append(m.data, []any{`INSERT INTO "` + name + `" VALUES(` + strings.Join(vals, ",") + `)`})
@@ -973,7 +997,7 @@ func c21cJudge(w *c21cWorld, text string, filter []string) {
 			}
 		}
 	}
-	if matched < 0 && wellFormed && len(w.states) > 1 && c21cIsMixture(content, w.states, filter) {
+	if matched < 0 && wellFormed && w.wroteInside() && c21cIsMixture(content, w.states, filter) {
 		if verifSymbolic() {
 			// consistency of model and oracle: a mixture needs two statements that read different states
 			mixed := false
